@@ -187,10 +187,14 @@ def make_callable(fd, log: CallLog, fail_at=None, wkinds=None):
             return value(app)
         return tuple(value(f"out({o};{app})") for o in outs)
 
-    dflt = dict(fd.get("defaults") or [])
+    # a default may be an array (a mapped root argument with a default value): {"sh", "d", "as"} like an input
+    dflt = {k: (make_input(v) if isinstance(v, dict) else v) for k, v in (fd.get("defaults") or [])}
+    has = [p in dflt for p in params]
+    # a default on a parameter that is not trailing is only legal for keyword-only parameters (pipefunc calls by keyword)
+    kind = (inspect.Parameter.KEYWORD_ONLY if any(a and not b for a, b in zip(has, has[1:]))
+            else inspect.Parameter.POSITIONAL_OR_KEYWORD)
     body.__signature__ = inspect.Signature([
-        inspect.Parameter(p, inspect.Parameter.POSITIONAL_OR_KEYWORD,
-                          default=dflt.get(p, inspect.Parameter.empty)) for p in params])
+        inspect.Parameter(p, kind, default=dflt.get(p, inspect.Parameter.empty)) for p in params])
     body.__name__ = name
     body.__qualname__ = name
     return body
